@@ -35,14 +35,20 @@ KT = 1.0 / 216000.0   # degrees of latitude per knot-second
 
 
 class Traj:
-    def __init__(self, name, lat0, lon0, hdg, kt, receiver=None, surface_until=None, taxi_kt=None):
+    def __init__(self, name, lat0, lon0, hdg, kt, receiver=None, surface_until=None, taxi_kt=None, kinds=(0, 1), gaps=None,
+                 surface_from=None):
         self.name, self.lat0, self.lon0, self.hdg, self.kt = name, lat0, lon0, hdg, kt
         self.receiver, self.surface_until, self.taxi_kt = receiver, surface_until, taxi_kt
+        self.kinds, self.gaps, self.surface_from = kinds, gaps, surface_from
         self.ch, self.sh = math.cos(math.radians(hdg)), math.sin(math.radians(hdg))
         self.cl = math.cos(math.radians(lat0))
 
     def dist(self, t):
         """knot-seconds travelled by time t."""
+        if self.surface_from is not None:         # landing: airborne until surface_from, then rolling out at taxi_kt
+            if t <= self.surface_from:
+                return self.kt * t
+            return self.kt * self.surface_from + self.taxi_kt * (t - self.surface_from)
         if self.surface_until is None:
             return self.kt * t
         if t <= self.surface_until:
@@ -56,6 +62,8 @@ class Traj:
         return lat, (lon + 180.0) % 360.0 - 180.0
 
     def on_ground(self, t):
+        if self.surface_from is not None:
+            return t >= self.surface_from
         return self.surface_until is not None and t <= self.surface_until
 
 
@@ -72,11 +80,21 @@ TRAJ = {t.name: t for t in [
     Traj("takeoff", 51.99, 4.37, 60, 160, receiver=(52.30, 4.80), surface_until=12.0, taxi_kt=25),
     Traj("taxi_across_equator", 0.0008, 32.44, 180, 30, receiver=(0.30, 32.60), surface_until=1e9, taxi_kt=30),
     Traj("stationary", 47.3, 8.5, 0, 0),
+    # phase changes with other ADS-B traffic of the same aircraft in between (velocity, identification), with and without
+    # a receiver location: a stale frame of the old phase must never be paired with a frame of the new one
+    Traj("takeoff_mixed", 51.99, 4.37, 60, 160, receiver=(52.30, 4.80), surface_until=12.0, taxi_kt=25, kinds=(0, 1, "vel", "id"), gaps=(0.4, 4, 9.6)),
+    Traj("takeoff_mixed_norecv", 51.99, 4.37, 60, 160, receiver=None, surface_until=12.0, taxi_kt=25, kinds=(0, 1, "vel", "id"), gaps=(0.4, 4, 9.6)),
+    Traj("landing_mixed", 52.30, 4.70, 240, 140, receiver=(52.30, 4.80), surface_from=12.0, taxi_kt=40, kinds=(0, 1, "vel", "id"), gaps=(0.4, 4, 9.6)),
+    Traj("landing_mixed_norecv", 52.30, 4.70, 240, 140, receiver=None, surface_from=12.0, taxi_kt=40, kinds=(0, 1, "vel", "id"), gaps=(0.4, 4, 9.6)),
 ]}
 ICAO1 = 0x4840D6
 
 
 def pos_msg(tr, t, oe):
+    if oe == "vel":      # airborne velocity, ground speed type, 120 kt east / 100 kt north (or a surface movement when on the ground: carried by the position message itself)
+        return F.es(F.me(19, [(6, 3, 1), (15, 10, 121), (26, 10, 101), (38, 9, 5)]), ICAO1, 5, 17)
+    if oe == "id":
+        return F.es(F.me(4, [(6, 3, 3)]) | 0x04D2C31CB1C3, ICAO1, 5, 17)
     lat, lon = tr.pos(t)
     surface = tr.on_ground(t)
     e = C.encode(Fr(lat), Fr(lon), oe, surface)
@@ -98,8 +116,8 @@ def run_positions(name, prefix, depth, acc):
 
     def succ(st):
         d, now, _ = st
-        for oe in (0, 1):
-            for gap in GAPS1:
+        for oe in tr.kinds:
+            for gap in (tr.gaps or GAPS1):
                 t = now + gap
                 msg = pos_msg(tr, t, oe)
                 d2 = copy.deepcopy(d)
@@ -657,8 +675,9 @@ def run(ctx):
     d1 = 5 if ctx.thorough else 4
     ev1 = [(oe, g) for oe in (0, 1) for g in GAPS1]
     for name in TRAJ:
-        for a in ev1:
-            for b in ev1:
+        evn = [(oe, g) for oe in TRAJ[name].kinds for g in (TRAJ[name].gaps or GAPS1)]
+        for a in evn:
+            for b in evn:
                 tasks.append(("pos", name, (a, b), d1))
     kinds = ["id", "pos", "b50", "b60"] if ctx.thorough else ["id", "pos", "b50"]
     gaps = [0.3, 30, 58.9, 59.4, 60.6, 61.2] if ctx.thorough else [0.3, 30, 58.9, 60.6, 61.2]
